@@ -13,11 +13,11 @@ class Inconclusive(Exception):
     pass
 
 
-def run(P, fn, args, heap0=None, hooks=None, budget=300000, max_forks=16, single=True, forced=None, memory=None, align=None, on_start=None, globals_=None):
+def run(P, fn, args, heap0=None, hooks=None, budget=300000, max_forks=16, single=True, forced=None, memory=None, align=None, on_start=None, globals_=None, inline_depth=None):
     """Execute fn abstractly. hooks: {callee: f(events, args, interp) -> value}. Returns
     (return value, events, heap) when single=True (exactly one path must exist), else the list of such
     triples, one per explored path (a path forks where a branch depends on unknown data)."""
-    it = Interp(P, fn, budget=budget, max_forks=max_forks)
+    it = Interp(P, fn, budget=budget, max_forks=max_forks) if inline_depth is None else Interp(P, fn, budget=budget, max_forks=max_forks, inline_depth=inline_depth)
     it.heap0 = dict(heap0 or {})
     it.with_heap = True
     it.forced = dict(forced or {})
